@@ -13,6 +13,7 @@ import (
 	"runtime"
 	"runtime/debug"
 	"sort"
+	"strconv"
 	"strings"
 	"sync"
 )
@@ -299,6 +300,11 @@ func RunWorker(a WorkerArgs) int {
 	}
 	if bi, ok := p.(BatchInit); ok {
 		bi.InitBatch(c, a.Batch)
+	}
+	if v := os.Getenv("VERIF_CASES_OVERRIDE"); v != "" {
+		if n, err := strconv.Atoi(v); err == nil && n > 0 {
+			plan.Cases = n
+		}
 	}
 	lo, hi := 0, plan.Cases
 	if a.Only >= 0 {
